@@ -1,6 +1,6 @@
 //! ICMPv4, ICMPv6, NDISC (+ options), MLD (+ address records), IGMP
 use super::alpha::*;
-use super::{caps, Rt};
+use super::{Ck, Proto, Rt, CK_ALL};
 use crate::core::Tier;
 use smoltcp::time::Duration;
 use smoltcp::wire::*;
@@ -25,14 +25,18 @@ fn v4hdrs(tier: Tier, plen: usize) -> Vec<Ipv4Repr> {
 impl Rt for Icmp4 {
     const NAME: &'static str = "Icmpv4Repr";
     type R<'x> = Icmpv4Repr<'x>;
-    type Ctx = ();
-    fn chunk(tier: Tier, _i: usize) -> Vec<(Icmpv4Repr<'static>, ())> {
+    type Ctx = Ck;
+    fn nchunks(_tier: Tier) -> usize {
+        CK_ALL.len()
+    }
+    fn chunk(tier: Tier, i: usize) -> Vec<(Icmpv4Repr<'static>, Ck)> {
+        let m = CK_ALL[i];
         let mut v = vec![];
         for id in pick(tier, &U16S, 2) {
             for sq in pick(tier, &U16S, 2) {
                 for l in pick(tier, &[0usize, 1, 1472, 2, 3], 3) {
-                    v.push((Icmpv4Repr::EchoRequest { ident: id, seq_no: sq, data: pat(l) }, ()));
-                    v.push((Icmpv4Repr::EchoReply { ident: id, seq_no: sq, data: pat(l) }, ()));
+                    v.push((Icmpv4Repr::EchoRequest { ident: id, seq_no: sq, data: pat(l) }, m));
+                    v.push((Icmpv4Repr::EchoReply { ident: id, seq_no: sq, data: pat(l) }, m));
                 }
             }
         }
@@ -50,27 +54,40 @@ impl Rt for Icmp4 {
         for l in pick(tier, &[8usize, 28, 1193, 2000, 9, 548, 1200, 1232, 1233, 1500], 4) {
             for h in v4hdrs(tier, l) {
                 for r in &du {
-                    v.push((Icmpv4Repr::DstUnreachable { reason: *r, header: h, data: pat(l) }, ()));
+                    v.push((Icmpv4Repr::DstUnreachable { reason: *r, header: h, data: pat(l) }, m));
                 }
                 for r in pick(tier, &te, 2) {
-                    v.push((Icmpv4Repr::TimeExceeded { reason: r, header: h, data: pat(l) }, ()));
+                    v.push((Icmpv4Repr::TimeExceeded { reason: r, header: h, data: pat(l) }, m));
                 }
             }
         }
         v
     }
-    fn blen(r: &Icmpv4Repr, _: &()) -> usize {
+    fn blen(r: &Icmpv4Repr, _: &Ck) -> usize {
         r.buffer_len()
     }
-    fn emit(r: &Icmpv4Repr, _: &(), buf: &mut [u8]) {
-        r.emit(&mut Icmpv4Packet::new_unchecked(buf), &caps(true))
+    fn emit(r: &Icmpv4Repr, m: &Ck, buf: &mut [u8]) {
+        let mut p = Icmpv4Packet::new_unchecked(buf);
+        r.emit(&mut p, &m.emit_caps(Proto::Icmpv4));
+        if m.device_fills() {
+            p.fill_checksum();
+        }
     }
-    fn parse(b: &[u8], _: &(), s: bool, k: &mut dyn FnMut(Option<&Icmpv4Repr<'_>>)) {
-        let r = Icmpv4Packet::new_checked(b).ok().and_then(|p| Icmpv4Repr::parse(&p, &caps(s)).ok());
+    fn parse(b: &[u8], m: &Ck, s: bool, k: &mut dyn FnMut(Option<&Icmpv4Repr<'_>>)) {
+        let r = Icmpv4Packet::new_checked(b).ok().and_then(|p| Icmpv4Repr::parse(&p, &m.parse_caps(Proto::Icmpv4, s)).ok());
         k(r.as_ref())
     }
-    fn same(a: &Icmpv4Repr, b: &Icmpv4Repr, _: &()) -> bool {
+    fn same(a: &Icmpv4Repr, b: &Icmpv4Repr, _: &Ck) -> bool {
         a == b
+    }
+    fn base_ctx(m: &Ck) -> Option<Ck> {
+        (*m != Ck::Default).then_some(Ck::Default)
+    }
+    fn ctx_tag(m: &Ck) -> String {
+        m.name().into()
+    }
+    fn tx_off(m: &Ck) -> bool {
+        m.tx_off()
     }
     fn tag(r: &Icmpv4Repr) -> String {
         match r {
@@ -99,7 +116,7 @@ impl Rt for Icmp4 {
         }
     }
     fn domain_doc() -> &'static str {
-        "EchoRequest/EchoReply: ident {0,1,0x8000,0xffff} x seq_no (same) x data length {0,1,2,3,1472}; DstUnreachable: reason (16 known codes + Unknown(16), Unknown(255)) x embedded Ipv4Repr (3 address pairs x 3 protocols x hop {0,64,255}) x data length {8,9,28,548,1193,1200,1232,1233,1500,2000} with header.payload_len = data.len() (no cut rule in the ICMPv4 wire code); TimeExceeded: reason {TtlExpired, FragExpired, Unknown(2), Unknown(255)} x same"
+        "EchoRequest/EchoReply: ident {0,1,0x8000,0xffff} x seq_no (same) x data length {0,1,2,3,1472}; DstUnreachable: reason (16 known codes + Unknown(16), Unknown(255)) x embedded Ipv4Repr (3 address pairs x 3 protocols x hop {0,64,255}) x data length {8,9,28,548,1193,1200,1232,1233,1500,2000} with header.payload_len = data.len() (no cut rule in the ICMPv4 wire code); TimeExceeded: reason {TtlExpired, FragExpired, Unknown(2), Unknown(255)} x same; x checksum capabilities of this protocol {default; None; Tx; Rx with the harness filling the checksum as the device would; emit default / parse None; emit Rx / parse Tx}, each emitted and parsed under that configuration"
     }
 }
 
@@ -400,12 +417,14 @@ fn v6pairs(tier: Tier) -> Vec<(Ipv6Address, Ipv6Address)> {
 impl Rt for Icmp6 {
     const NAME: &'static str = "Icmpv6Repr";
     type R<'x> = Icmpv6Repr<'x>;
-    type Ctx = (Ipv6Address, Ipv6Address);
+    type Ctx = (Ipv6Address, Ipv6Address, Ck);
     fn nchunks(tier: Tier) -> usize {
-        v6pairs(tier).len()
+        v6pairs(tier).len() * CK_ALL.len()
     }
     fn chunk(tier: Tier, i: usize) -> Vec<(Icmpv6Repr<'static>, Self::Ctx)> {
-        let c = v6pairs(tier)[i];
+        let m = CK_ALL[i % CK_ALL.len()];
+        let c = v6pairs(tier)[i / CK_ALL.len()];
+        let c = (c.0, c.1, m);
         let mut v = vec![];
         for id in pick(tier, &U16S, 2) {
             for sq in pick(tier, &U16S, 2) {
@@ -463,11 +482,24 @@ impl Rt for Icmp6 {
         }
     }
     fn emit(r: &Icmpv6Repr, c: &Self::Ctx, buf: &mut [u8]) {
-        r.emit(&c.0, &c.1, &mut Icmpv6Packet::new_unchecked(buf), &caps(true))
+        let mut p = Icmpv6Packet::new_unchecked(buf);
+        r.emit(&c.0, &c.1, &mut p, &c.2.emit_caps(Proto::Icmpv6));
+        if c.2.device_fills() {
+            p.fill_checksum(&c.0, &c.1);
+        }
     }
     fn parse(b: &[u8], c: &Self::Ctx, s: bool, k: &mut dyn FnMut(Option<&Icmpv6Repr<'_>>)) {
-        let r = Icmpv6Packet::new_checked(b).ok().and_then(|p| Icmpv6Repr::parse(&c.0, &c.1, &p, &caps(s)).ok());
+        let r = Icmpv6Packet::new_checked(b).ok().and_then(|p| Icmpv6Repr::parse(&c.0, &c.1, &p, &c.2.parse_caps(Proto::Icmpv6, s)).ok());
         k(r.as_ref())
+    }
+    fn base_ctx(c: &Self::Ctx) -> Option<Self::Ctx> {
+        (c.2 != Ck::Default).then_some((c.0, c.1, Ck::Default))
+    }
+    fn ctx_tag(c: &Self::Ctx) -> String {
+        c.2.name().into()
+    }
+    fn tx_off(c: &Self::Ctx) -> bool {
+        c.2.tx_off()
     }
     fn same(a: &Icmpv6Repr, b: &Icmpv6Repr, _: &Self::Ctx) -> bool {
         match (a, b) {
@@ -516,7 +548,7 @@ impl Rt for Icmp6 {
         }
     }
     fn domain_doc() -> &'static str {
-        "per (src,dst) pseudo-header pair (3 pairs: link-local->multicast, global->ULA, unspecified->solicited-node): Echo request/reply (ident, seq_no in {0,1,0x8000,0xffff}, data length {0,1,2,3,1232}); DstUnreachable (7 known codes + Unknown(7), Unknown(255)), PktTooBig (mtu {0,1,2^31,2^32-1}), TimeExceeded (2 known + 2 unknown), ParamProblem (3 known + 2 unknown x pointer(4)), each x embedded Ipv6Repr (3 address pairs x 3 next headers x hop {0,64,255} x payload_len {data.len(),0,65535}) x data length {0,1,8,1192 = longest uncut, and 1193,1200,1232,1233,1500,2000 beyond the cut: emitted into exactly buffer_len() bytes, expected parse result = the value with data cut to buffer_len()-48 bytes}; plus every 7th NDISC value and every 5th MLD value of the NdiscRepr / MldRepr domains wrapped in Icmpv6Repr"
+        "per (src,dst) pseudo-header pair (3 pairs: link-local->multicast, global->ULA, unspecified->solicited-node): Echo request/reply (ident, seq_no in {0,1,0x8000,0xffff}, data length {0,1,2,3,1232}); DstUnreachable (7 known codes + Unknown(7), Unknown(255)), PktTooBig (mtu {0,1,2^31,2^32-1}), TimeExceeded (2 known + 2 unknown), ParamProblem (3 known + 2 unknown x pointer(4)), each x embedded Ipv6Repr (3 address pairs x 3 next headers x hop {0,64,255} x payload_len {data.len(),0,65535}) x data length {0,1,8,1192 = longest uncut, and 1193,1200,1232,1233,1500,2000 beyond the cut: emitted into exactly buffer_len() bytes, expected parse result = the value with data cut to buffer_len()-48 bytes}; plus every 7th NDISC value and every 5th MLD value of the NdiscRepr / MldRepr domains wrapped in Icmpv6Repr; x checksum capabilities of this protocol {default; None; Tx; Rx with the harness filling the checksum as the device would; emit default / parse None; emit Rx / parse Tx}, each emitted and parsed under that configuration"
     }
 }
 
@@ -821,8 +853,8 @@ pub fn observations() -> Vec<serde_json::Value> {
     let h4 = |l| Ipv4Repr { src_addr: v4s()[0], dst_addr: v4s()[5], next_header: IpProtocol::Udp, payload_len: l, hop_limit: 64 };
     let h6 = |l| Ipv6Repr { src_addr: v6s()[0], dst_addr: v6s()[3], next_header: IpProtocol::Udp, payload_len: l, hop_limit: 64 };
     vec![
-        super::probe::<Icmp4>(&Icmpv4Repr::DstUnreachable { reason: Icmpv4DstUnreachable::PortUnreachable, header: h4(100), data: pat(8) }, &()),
-        super::probe::<Icmp4>(&Icmpv4Repr::TimeExceeded { reason: Icmpv4TimeExceeded::TtlExpired, header: h4(4), data: pat(4) }, &()),
+        super::probe::<Icmp4>(&Icmpv4Repr::DstUnreachable { reason: Icmpv4DstUnreachable::PortUnreachable, header: h4(100), data: pat(8) }, &Ck::Default),
+        super::probe::<Icmp4>(&Icmpv4Repr::TimeExceeded { reason: Icmpv4TimeExceeded::TtlExpired, header: h4(4), data: pat(4) }, &Ck::Default),
         super::probe::<NdOpt>(&NdiscOptionRepr::RedirectedHeader(NdiscRedirectedHeader { header: h6(100), data: pat(8) }), &()),
         super::probe::<NdOpt>(&NdiscOptionRepr::SourceLinkLayerAddr(RawHardwareAddress::from_bytes(&[0x12, 0x34])), &()),
         super::probe::<Igmp>(&IgmpRepr::MembershipQuery { max_resp_time: Duration::from_millis(0), group_addr: v4s()[3], version: IgmpVersion::Version2 }, &()),
